@@ -12,6 +12,7 @@ import Tranp.Lemmas.BlockCallers
 import Tranp.Lemmas.BlockTotal
 import Tranp.Lemmas.BlockLast
 import Tranp.Lemmas.BlockMulti
+import Tranp.Lemmas.BlockView
 import Tranp.Generated.BlockCallSites
 
 namespace Tranp.C18
@@ -619,5 +620,66 @@ theorem sep_multichar_rejoin_counterexample : ¬ sep_multichar_rejoin_statement 
   have := h ['a', ':', ':', ':', 'b'] [':', ':'] [['a'], [], ['b']] (by decide) (by decide) (by decide)
   revert this
   decide
+
+/-! ## `DecoratorQuery.any_args` (the production use: `deco_ignore.any_args(inherit)` in class/_inherits.j2) -/
+
+/-- `DecoratorQuery.any_args(subject)` keeps exactly the decorators whose argument text — everything between the first `(`
+    and the last character — contains `subject`, in order; whenever every decorator parses. For `path(args)` that text is
+    `args` (`joinArgsOf_call`). -/
+theorem query_any_args (ds : List Str) (subject : Str) (h : ∀ d ∈ ds, ∃ r, decoParse d = .ok r) :
+    queryAnyArgs ds subject = .ok (ds.filter fun d => (Str.find (joinArgsOf d) subject).isSome) ∧
+    ∀ (path args : Str), (∀ x ∈ path, x ≠ '(') → joinArgsOf (path ++ '(' :: (args ++ [')'])) = args :=
+  ⟨queryAnyArgs_filter ds subject h, joinArgsOf_call⟩
+
+example : queryAnyArgs [['a', '(', 'x', ',', 'B', ')'], ['b'], ['c', '(', 'B', ')']] ['B'] = .ok [['a', '(', 'x', ',', 'B', ')'], ['c', '(', 'B', ')']] := by
+  decide
+
+/-! ## `is_quoted_literal` (rogw/tranp/lang/string.py) -/
+
+/-- `is_quoted_literal(q + body + q, q)` for a one-character quote: true exactly when every quote character of the body stands
+    behind a backslash (a quote in the first position of the body never does); the loop never runs out of fuel. -/
+theorem quoted_literal (q : Char) (body : Str) :
+    isQuotedLiteral (q :: (body ++ [q])) [q] = .ok (escapedBody q q body) :=
+  isQuotedLiteral_quoted q body
+
+/-- the simple strings of the fragment grammar (no own quote inside) are quoted literals -/
+theorem quoted_simple_string (q : QK) (body : Str) (hb : ∀ c ∈ body, c ≠ q.ch) :
+    isQuotedLiteral (Frag.str q body .nil).render [q.ch] = .ok true := by
+  have := isQuotedLiteral_quoted q.ch body
+  rw [escapedBody_not_mem q.ch body q.ch hb] at this
+  simpa [Frag.render] using this
+
+/-- `"a\"b"` is a literal, `"a"b"` is not, a text without the closing quote is not -/
+example : isQuotedLiteral ['"', 'a', '\\', '"', 'b', '"'] ['"'] = .ok true ∧ isQuotedLiteral ['"', 'a', '"', 'b', '"'] ['"'] = .ok false ∧
+    isQuotedLiteral ['"', 'a'] ['"'] = .ok false ∧ escapedBody '"' '"' ['a', '\\', '"', 'b'] = true := by
+  decide
+
+/-! ## `CppViewHelper.Param.var_type_origin` -/
+
+/-- the regular expression the theorems below speak about IS the generated term (translate/gen_c08_regex.py reads the compiled
+    `Param.VarType`): `^(const\s+)?([\w\d\:]+)[^\*&]*[\*&]?` -/
+theorem var_type_pattern :
+    Generated.C08Regex.CppViewHelper_Param_VarType = .seq .bol (.seq reOptConst reName) := varType_pattern
+
+/-- `var_type_origin` of `base [<…>] [*|&]` is `base` — through the regular expression when the text ends in `*`/`&`,
+    through `split('<')[0]` otherwise — for every non-empty base name over `[A-Za-z0-9_:]` and every template-argument text. -/
+theorem var_type_origin_plain (base targs ptr : Str) (hb : base ≠ []) (hW : ∀ c ∈ base, isNameChar c = true)
+    (hr : typeRest targs ptr) : varTypeOrigin (base ++ (targs ++ ptr)) = .ok base :=
+  varTypeOrigin_plain base targs ptr hb hW hr
+
+/-- … and of `const␠ base [<…>] [*|&]` (any further white space behind `const␠`): the optional group takes `const` and
+    all the white space, group 2 is the base name. -/
+theorem var_type_origin_const (ws base targs ptr : Str) (hS : ∀ c ∈ ws, Regex.isSpaceChar c = true) (hb : base ≠ [])
+    (hW : ∀ c ∈ base, isNameChar c = true) (hr : typeRest targs ptr) :
+    varTypeOrigin (constBlank ++ (ws ++ (base ++ (targs ++ ptr)))) = .ok base :=
+  varTypeOrigin_const ws base targs ptr hS hb hW hr
+
+/-- non-vacuity: `const  Box::Item&`, `std::map<std::string, int>`, `int*`; and outside the shape: `*` has no name (`None[2]`) -/
+example :
+    typeRest [] ['&'] ∧ typeRest ['<', 'i', 'n', 't', '>'] [] ∧
+    varTypeOrigin (constBlank ++ ([' '] ++ (['B', ':', ':', 'I'] ++ ([] ++ ['&'])))) = .ok ['B', ':', ':', 'I'] ∧
+    varTypeOrigin (['m', 'a', 'p'] ++ (['<', 'i', 'n', 't', '>'] ++ [])) = .ok ['m', 'a', 'p'] ∧
+    varTypeOrigin ['i', 'n', 't', '*'] = .ok ['i', 'n', 't'] ∧ varTypeOrigin ['*'] = .error .TypeError := by
+  refine ⟨⟨Or.inl rfl, Or.inr (Or.inr rfl)⟩, ⟨Or.inr ⟨_, rfl⟩, Or.inl rfl⟩, ?_, ?_, ?_, ?_⟩ <;> decide
 
 end Tranp.C18
